@@ -49,6 +49,8 @@ pub struct Ev {
     pub api: u32,
     /// global sequence number taken when the call ENTERED the backend method (before its lock)
     pub seq: u64,
+    /// small id of the calling thread
+    pub tid: u64,
 }
 
 #[derive(Clone, Copy, Debug, PartialEq, Eq)]
@@ -67,6 +69,13 @@ pub enum Pending {
 }
 
 pub static ENTRY_SEQ: std::sync::atomic::AtomicU64 = std::sync::atomic::AtomicU64::new(1);
+static NEXT_TID: std::sync::atomic::AtomicU64 = std::sync::atomic::AtomicU64::new(1);
+std::thread_local! {
+    static MY_TID: u64 = NEXT_TID.fetch_add(1, std::sync::atomic::Ordering::SeqCst);
+}
+pub fn my_tid() -> u64 {
+    MY_TID.with(|t| *t)
+}
 pub fn entry_seq() -> u64 {
     ENTRY_SEQ.fetch_add(1, std::sync::atomic::Ordering::SeqCst)
 }
@@ -174,7 +183,7 @@ impl MonBackend {
         };
         let api = g.cur_api;
         let seq = g.cur_seq;
-        g.events.push(Ev { kind, off, len, ok: !fail, api, seq });
+        g.events.push(Ev { kind, off, len, ok: !fail, api, seq, tid: my_tid() });
         if g.latch_log {
             redb::verif_c08::latch_log_backend(kind as u8, !fail);
         }
@@ -282,7 +291,7 @@ impl StorageBackend for MonBackend {
         g.closes += 1;
         let api = g.cur_api;
         let seq = g.cur_seq;
-        g.events.push(Ev { kind: Kind::Close, off: 0, len: 0, ok: true, api, seq });
+        g.events.push(Ev { kind: Kind::Close, off: 0, len: 0, ok: true, api, seq, tid: my_tid() });
         if g.latch_log {
             redb::verif_c08::latch_log_backend(Kind::Close as u8, true);
         }
